@@ -358,6 +358,33 @@ TEMPLATE_CHAINS = [
      ['start = Item // ","\nItem = [Key, "=", Val]\nKey = /[a-z]/\nVal = /[0-9]/\n',
       'start = Item // ","\nItem = ([Key, ":", Val] | [Key, "=", Val])\nKey = /[a-z]/\nVal = (/[0-9]+/ | Quoted)\nQuoted = ("\'" >> /[a-z]*/ << "\'")\n'],
      ['a=1', 'a:12,b=3', "a='x',b:2", 'a=12', 'a:', '']),
+    # super.R(args) calls in the middle of a chain of four, overrides below and above them; every level is parsed
+    # after the whole chain exists (creating a descendant must not change an ancestor)
+    (['grammar {p}a\nstart = Wrap(Word)\nWord = /[a-z]+/\nWrap(x) = "(" >> x << ")"\n',
+      'grammar {p}b extends {p}a\noverride Wrap(x) = "[" >> super.Wrap(x) << "]"\n',
+      'grammar {p}c extends {p}b\noverride Word = /[a-z0-9]+/\n',
+      'grammar {p}d extends {p}c\noverride Wrap(x) = "<" >> super.Wrap(x) << ">"\n'],
+     ['start = "(" >> Word << ")"\nWord = /[a-z]+/\n',
+      'start = "[" >> ("(" >> Word << ")") << "]"\nWord = /[a-z]+/\n',
+      'start = "[" >> ("(" >> Word << ")") << "]"\nWord = /[a-z0-9]+/\n',
+      'start = "<" >> ("[" >> ("(" >> Word << ")") << "]") << ">"\nWord = /[a-z0-9]+/\n'],
+     ['(ab)', '[(ab)]', '[(a1)]', '<[(a1)]>', '<[(ab)]>', '[[(ab)]]', '(a1)', '']),
+    # super.R handed to a template as an argument, in the middle of a chain of three
+    (['grammar {p}a\nstart = Word\nWord = /[a-z]+/\nWrap(x) = "(" >> x << ")"\n',
+      'grammar {p}b extends {p}a\noverride Word = Wrap(super.Word) | /[0-9]+/\n',
+      'grammar {p}c extends {p}b\nOther = "q"\n'],
+     ['start = Word\nWord = /[a-z]+/\n',
+      'start = Word\nWord = ("(" >> /[a-z]+/ << ")") | /[0-9]+/\n',
+      'start = Word\nWord = ("(" >> /[a-z]+/ << ")") | /[0-9]+/\n'],
+     ['ab', '(ab)', '12', '((ab))', '(12)', '']),
+    # inherited ignore patterns and a start rule of the child's own (plain and class)
+    (['grammar {p}a\nignore / +/\nstart = Item*\nItem = /[a-z]+/\n',
+      'grammar {p}b extends {p}a\noverride start = Item+\n',
+      'grammar {p}c extends {p}b\nclass Start {{ first: Item; rest: Item* }}\n'.replace('{{', '{').replace('}}', '}')],
+     ['ignore / +/\nstart = Item*\nItem = /[a-z]+/\n',
+      'ignore / +/\nstart = Item+\nItem = /[a-z]+/\n',
+      None],
+     [' ab cd', 'ab cd ', '  ', 'ab', '']),
 ]
 
 
@@ -376,6 +403,8 @@ def template_chains(seed):
                         'what': f'creating template chain {ci} raised {type(exc).__name__}: {str(exc)[:200]}'})
             continue
         for li, (mod, ft) in enumerate(zip(mods, flats)):
+            if ft is None:
+                continue
             flat, _ = rr.compile_grammar(ft)
             for t in inputs:
                 a = rr.run_real_api(mod.parse, t, 0, True)[0]
